@@ -764,6 +764,10 @@ class Interp:
                 ref.frame.vars[ref.name] = v
                 return
             base = self.eval(t.value, fr)
+            if isinstance(base, ArrBox) and (isinstance(t.slice, ast.Slice) or (isinstance(t.slice, ast.Constant) and t.slice.value is Ellipsis)
+                                             or (isinstance(t.slice, ast.Tuple) and all(isinstance(x_, ast.Slice) or (isinstance(x_, ast.Constant) and x_.value is Ellipsis) for x_ in t.slice.elts))):
+                base.v = unbox(v)              # x[...] = v / x[:] = v: the array object keeps its identity and takes the new content (every holder of it sees it)
+                return
             idx = self.index(t.slice, fr)
             if isinstance(base, Arr):
                 if isinstance(idx, slice):
